@@ -554,7 +554,41 @@ VAR_ORDER_P = [
 ]
 
 
+def huge_cases(rng):
+    """texts at the limits of the runtime: an index with more digits than CPython converts to an int by default
+    (sys.get_int_max_str_digits), very long names, deeply nested patterns: "compiled or rejected with the definition
+    error" — nothing else escapes.  Oracle only (the model has no such limits, so the verdict itself is not compared)"""
+    import sys as _sys
+    lim = getattr(_sys, "get_int_max_str_digits", lambda: 4300)() or 4300
+    xs = [f"/Tup/@items[{'1' * (lim + 1)}]Leaf", f"//@items[{'0' * (lim + 7)}]", f"/Tup/@items[{'9' * (lim - 1)}]Leaf",
+          "/" + "A" * 5000, "/Tup" + "/@items[0]Tup" * 300, "//" + "Leaf/" * 400 + "Leaf"]
+    for t in xs:
+        real = observe_xpath(t, DEFAULT, "plain")
+        again = observe_xpath(t, DEFAULT, "plain")
+        bad = None
+        if real.startswith("OTHER") or again.startswith("OTHER"):
+            bad = f"ASTXpath: {real[:80]}"
+        elif (real == XREJECT) != (again == XREJECT):
+            bad = "second construction differs in acceptance"
+        yield Case("xpath_huge", None, None, True, f"xpath text of {len(t)} chars: {t[:40]!r}…", oracle_fail=bad,
+                   sig="xpath|other-exception" if bad else "xpath|huge")
+    ps_ = ["(Leaf @v=\"" + "a" * 20000 + "\")", "(Tup @items=[" + "(Leaf) " * 600 + "*])",
+           "(" + "|".join(["Leaf"] * 800) + ")", "(Un @arg=" * 150 + "(Leaf)" + ")" * 150]
+    for t in ps_:
+        outs = observe_pattern(t, False)
+        others = [k for k, v in outs.items() if v.startswith("OTHER")]
+        acc = {k: (v != REJECT) for k, v in outs.items()}
+        bad = None
+        if others:
+            bad = f"an exception other than the definition error escapes: { {k: outs[k][:40] for k in others} }"
+        elif len(set(acc.values())) != 1:
+            bad = f"entry points disagree on acceptance: {acc}"
+        yield Case("pattern_huge", None, None, True, f"pattern text of {len(t)} chars: {t[:40]!r}…", oracle_fail=bad,
+                   sig="pattern|other-exception" if bad else "pattern|huge")
+
+
 def cases(rng: random.Random, tier: str):
+    yield from huge_cases(rng)
     for cfg in zoo_c08.CONFIGS:
         for t in FIXED_P + BAD_REGEX_P:
             yield pattern_case(t, "pattern_fixed", cfg=cfg)[0]
